@@ -42,6 +42,8 @@ type stRet struct {
 	N   int    `json:"n"`
 	M   int    `json:"m"`
 	Sz  int    `json:"sz"`
+	It  int    `json:"it"`  // bit mask of the identifiers yielded by SlabIterator
+	Cnt int    `json:"cnt"` // Count()
 }
 
 type stState struct {
@@ -279,6 +281,18 @@ func (w *stWorld) exec(op stOp, t int, rec *[]stRec) {
 		ret.N = int(w.st.Deltas())
 		ret.M = int(w.st.DeltasWithoutTempAddresses())
 		ret.Sz = int(w.st.DeltasSizeWithoutTempAddresses())
+		ret.Cnt = w.st.Count()
+		if it, err := w.st.SlabIterator(); err == nil {
+			for {
+				id, s := it()
+				if s == nil {
+					break
+				}
+				ret.It |= 1 << (w.idx(id) - 1)
+			}
+		} else {
+			ret.It = -1
+		}
 		emit("Observe", true, ret, w.state(), 0)
 	case "unsaved":
 		var a atree.Address
